@@ -1,16 +1,18 @@
 SPECIFICATION Spec
 CONSTANTS
-  LL = 2
-  MGens <- MGensAll
-  OGens <- OGensAll
-  Scalars <- ScalarsAll
-  MaxDepth = 1
+  LL = 3
+  MGens <- MGensQuick
+  OGens <- OGensQuick
+  Scalars <- ScalarsQuick
+  MaxDepth = 0
   MaxBond = 4
-  OutFree = TRUE
+  OutFree = FALSE
   Mutant <- NoMutant
   Emit = FALSE
 VIEW View
 INVARIANT Denotes
 INVARIANT QueryExact
 INVARIANT BondBook
+INVARIANT ChainIsDenote
+
 CHECK_DEADLOCK FALSE
